@@ -12,8 +12,10 @@ ASSUMPTIONS = [
     "Decimal::sqrt is not modelled: the general theorems hold for an arbitrary function sqrtFn in its place; the model driver plugs in sqrtApprox (sqrt truncated to 30 decimals, error bound proved) and the run compares both std_dev and std_dev^2 with the real Decimal::sqrt to 1e-18",
     "the summary starts from DataSetSummary::default() and is changed only by update (a deserialised or hand-built summary is outside the quantifier)",
     "count is a Decimal in the code and never overflows (it is a rational in the model)",
+    "the arithmetic kernels welford_online::calculate_mean / calculate_recurrence_relation_m / calculate_population_variance (barter/src/statistic/algorithm.rs) are additionally tied to the source by translation: tools/rust2lean.py regenerates their Lean definitions from the current Rust text before every build (PREBUILD) and theorem kernels_agree_with_source proves them equal to the model's definitions for all arguments; trusted there: the translator's reading of the small Rust subset it accepts (it rejects everything else) and its fixed Decimal prelude (abs, is_zero, checked_div = None exactly on a zero divisor, MAX/MIN)",
 ]
 SOURCE_FILES = ["barter/src/statistic/summary/dataset/mod.rs", "barter/src/statistic/summary/dataset/dispersion.rs", "barter/src/statistic/algorithm.rs"]
+PREBUILD = [["python3", "tools/rust2lean.py", "--require", "welford"]]
 
 
 def signature(ops, k, key, impl_line, spec_line):
@@ -47,4 +49,5 @@ LEVEL_TEXT = ("Proof. Lean theorems over the model of DataSetSummary/Dispersion/
 LEVEL_NOTE = ("Trusted: Lean kernel; axioms propext/Classical.choice/Quot.sound only; the hand-written model (tied by sampled correspondence: 400 quick / 8k random + all 3 906 "
               "sequences of length <=5 over 5 values thorough); harness and driver. Exact arithmetic over Q: `within decimal rounding` is proved as equality, rust_decimal "
               "rounding/overflow and Decimal::sqrt are not modelled (division- and sqrt-derived fields compared to 1e-18; worst observed deviation 1e-23). "
-              "Histories start at DataSetSummary::default().")
+              "Histories start at DataSetSummary::default(). "
+              "Additionally tied by translation: the Lean definitions of the kernels welford_online::calculate_mean / calculate_recurrence_relation_m / calculate_population_variance (barter/src/statistic/algorithm.rs) are regenerated from the current source on every run (tools/rust2lean.py) and proved equal to the model's (kernels_agree_with_source), so a change of such a kernel breaks a proof obligation directly; the translator and its Decimal prelude are trusted for that tie.")
